@@ -192,7 +192,7 @@ def r4(ctx):
             ctx.check(ok, fi, "value for point p = loglik(data[p], clusters[label[p]], W, columns / W)", line=c.lineno, role="per-point",
                       expected="point_log_likelihood(data[p], model.clusters[labels[p]], W, N)", found=str(t)[:220])
     if not done:
-        ctx.fail(fi, "per-point values are not computed by point_log_likelihood", role="per-point", found=f"{len(appends)} append(s)")
+        ctx.unrecognised(fi, "per-point values are not computed by a point_log_likelihood call the rule recognises", role="per-point", found=f"{len(appends)} append(s)")
 
 
 @rule("C05", "R5", "NUM", "log-determinants used for scoring stay finite (no determinant is formed)", floor=3, evidence=True)
